@@ -462,13 +462,14 @@ func (se *specEnv) eval(x ast.Expr) (out Val) {
 		if v, ok := se.names[n.Name]; ok {
 			return v
 		}
-		if v, ok := se.f.lookupName(n.Name); ok && !se.noLocal {
-			return v
-		}
-		// a local that lives in a cell
+		// a local that lives in a cell denotes the cell's current content (value
+		// DebugRefs of such a variable are snapshots taken at earlier reads)
 		if v, ok := se.f.lookupName("&" + n.Name); ok && !se.noLocal {
 			a := se.f.asAddr(v)
 			return Val{term: e.load(se.st, a), typ: v.typ.Underlying().(*types.Pointer).Elem()}
+		}
+		if v, ok := se.f.lookupName(n.Name); ok && !se.noLocal {
+			return v
 		}
 		if v, ok := se.f.params[n.Name]; ok && !se.closed {
 			return v
